@@ -151,7 +151,7 @@ def run(ctx):
                 free = free_clusters(ir)
                 cand = [
                     ["makedir", "/D/newdir"], ["makedir", "/newdir with a long name needing slots"], ["create", "/D/a rather long file name needing three slots.txt"],
-                    ["open", "w1", "/D/new.bin", "w"], ["open", "w2", "/D/keep.txt", "a"], ["create", "/T1.TXT"], ["makedir", "/M1"],
+                    ["open", "w1", "/D/new.bin", "w"], ["open", "w2", "/D/keep.txt", "a"], ["open", "w3", "/D/keep.txt", "r+"], ["create", "/T1.TXT"], ["makedir", "/M1"],
                     ["create", "/" + "n" * 300], ["makedir", "/" + "m" * 256], ["create", "/bad\0name"], ["create", "/nodir/x.txt"], ["makedir", "/D"],
                     ["remove", "/D"], ["removedir", "/D"], ["removedir", "/D/keep.txt"], ["remove", "/missing"], ["create", "/D"], ["makedir", "/D/keep.txt"],
                     ["setinfo", "/D/keep.txt", None, 100, None, None, (1970, 1, 1, 0, 1, 40), None],
@@ -175,11 +175,14 @@ def run(ctx):
                     extra = []
                     if op[0] == "open" and r[0] == "ok":
                         h = op[1]
-                        if "w" in op[3] or "a" in op[3]:
+                        if "w" in op[3] or "a" in op[3] or "+" in op[3]:
                             opened = tree_sig(ir.walk())         # the tree once the handle is open (a new / emptied file is there)
                             changed_by_success = False
                             free_now = free_clusters(ir)
-                            wop = ["write", h, (b"W" * ((free_now + 1) * bpc)).hex()]
+                            # r+: from the START of the file, over everything it has and further than the volume has room for — what is refused
+                            # must not have overwritten the clusters the file already owns (C09-m8)
+                            have = (ir.op(["getsize", op[2]])[0][1] if "+" in op[3] and "w" not in op[3] else 0) or 0
+                            wop = ["write", h, (b"W" * ((free_now + 1) * bpc + (have + bpc - 1) // bpc * bpc)).hex()]
                             r2, _ = ir.op(wop)
                             extra.append((wop, r2))
                             if r2[0] == "err" and free_now >= 2:
